@@ -10,7 +10,7 @@ for f in /repo/*.go /repo/go.mod /repo/go.sum; do case "$f" in *_test.go) ;; *) 
 ( cd "$T" && git apply "$P" ) || { echo "REF $P: patch does not apply"; exit 2; }
 ( cd "$T" && go build ./... ) || { echo "REF $P: does not build"; exit 2; }
 fired=""
-for p in C01 C02 C03 C04 C05 C07 C09 C10 C11 C12 C13 C14 C15 C16 C17; do
+for p in C01 C02 C03 C04 C05 C06 C07 C08 C09 C10 C11 C12 C13 C14 C15 C16 C17; do
   out=$(/verif/bin/utxlint -prop $p -repo "$T" -verif /verif -no-evidence -no-controls 2>&1); rc=$?
   if [ $rc -ne 0 ]; then fired="$fired $p(rc=$rc)"; echo "$out" | grep ": R[0-9][0-9][a-z]* \(violated\|undecided\|instance-floor\)\|ANALYSIS-ERROR" | cut -c1-330 | sed "s/^/    [$p] /"; fi
 done
